@@ -2,18 +2,18 @@ package sim
 
 import (
 	"encoding/hex"
-	"reflect"
 	"fmt"
 	"math/big"
 	"math/rand/v2"
+	"reflect"
 	"sort"
 	"strings"
 	"time"
 
 	sdkmath "cosmossdk.io/math"
 	codectypes "github.com/cosmos/cosmos-sdk/codec/types"
-	authtypes "github.com/cosmos/cosmos-sdk/x/auth/types"
 	sdk "github.com/cosmos/cosmos-sdk/types"
+	authtypes "github.com/cosmos/cosmos-sdk/x/auth/types"
 	"github.com/ethereum/go-ethereum/common"
 	ethcrypto "github.com/ethereum/go-ethereum/crypto"
 
